@@ -39,9 +39,9 @@ AllFaults == {"payee_semicolon", "payee_line_end", "payee_looks_like_code", "cod
               "note_line_end", "note_looks_like_key_value", "note_looks_like_tags"}
 
 \* ---------------------------------------------------------------- catalogue
-Payees == {"Grocery Shop", "給料 振込", "A&B Co. #12", "Shop; rm -rf", "Evil\n    Assets:Evil  1000 USD", "Evil\r\nnext", "(123) Shop", "* Shop", "!Shop"}
-Codes == {"~", "123", "12)3", "a(b", "1\n2"}
-Notes == {"", "memo text", "x ; y", "Ref: 12345", ":tag1:tag2:", "line1\nline2", "time 12:30"}
+Payees == {"Grocery Shop", "給料 振込", "A&B Co. #12", "Shop; rm -rf", "Evil\n    Assets:Evil  1000 USD", "Evil\r\nnext", "ACME Store\rZurich", "(123) Shop", "* Shop", "!Shop"}
+Codes == {"~", "123", "12)3", "a(b", "1\n2", "1\r2"}
+Notes == {"", "memo text", "x ; y", "Ref: 12345", ":tag1:tag2:", "line1\nline2", "old\rmac", "time 12:30"}
 \* amount as printed by the bank, with the value it denotes: [txt, m (mantissa digits), neg, s]
 Amounts == {[txt |-> "10.00", m |-> "1000", neg |-> FALSE, s |-> 2], [txt |-> "-1,234.50", m |-> "123450", neg |-> TRUE, s |-> 2],
             [txt |-> "$15.00", m |-> "1500", neg |-> FALSE, s |-> 2], [txt |-> "-$1.46", m |-> "146", neg |-> TRUE, s |-> 2],
